@@ -5,7 +5,7 @@ use crate::choice::Chooser;
 
 const PRELUDE: &str = "data T { A, B, C, D }\ndata List[X] { Nil, Cons(x: X, xs: List[X]) }\ncodata Fun[X, Y] { apply(x: X): Y }\ncodata Stream[X] { head: X, tail: Stream[X] }\n";
 
-pub const KINDS: usize = 6;
+pub const KINDS: usize = 10;
 pub const FOLLOWS: usize = 9;
 
 /// one branching construct binding `{out}{i}`; `c` constructors (2..4) where relevant
@@ -31,6 +31,20 @@ fn branch(kind: usize, i: usize, c: usize, out: &str) -> String {
         ),
         // nested conditional in operand position
         4 => format!("let {out}{i}: i64 = (if {prev} <= {i} {{ 1 }} else {{ 2 }}) + (if {prev} > 3 {{ {prev} }} else {{ 4 }});\n  "),
+        // destructor invoked directly on a codata-typed conditional
+        6 => format!(
+            "let {out}{i}: i64 = (if {prev} < {i} {{ new {{ apply(v) => v + 1 }} }} else {{ new {{ apply(v) => v - 1 }} }}).apply[i64, i64]({prev});\n  "
+        ),
+        // destructor invoked directly on a codata-typed match
+        7 => format!(
+            "let {out}{i}: i64 = (t.case {{ A => new {{ apply(v) => v + 1 }}, B => fu, C => new {{ apply(v) => v }}, D => fu }}).apply[i64, i64]({prev});\n  "
+        ),
+        // conditional in a constructor argument, the constructor matched afterwards
+        8 => format!(
+            "let {out}{i}: i64 = (Cons(if {prev} == {i} {{ 1 }} else {{ {prev} }}, Nil)).case[i64] {{ Nil => 0, Cons(hd, tl) => hd }};\n  "
+        ),
+        // conditional in the argument of a destructor invocation
+        9 => format!("let {out}{i}: i64 = fu.apply[i64, i64](if {prev} == {i} {{ 1 }} else {{ {prev} }});\n  "),
         // print in between (statement-like) plus conditional
         _ => format!("let {out}{i}: i64 = if 0 < {prev} {{ {prev} * 2 }} else {{ 0 - {prev} }};\n  "),
     }
